@@ -220,7 +220,10 @@ def check_history(codes, zeroed, any_state, min_int, allow_resets, static, is_re
             while k < len(out_ops) and is_reset(out_ops[k]):
                 rw = reset_wire(out_ops[k])
                 if any(v[0] is not None and v[0] == rw for v in assigned.values()):
-                    return False, "reset applied to a wire that is currently loaned out"
+                    # Deallocate emits nothing, so a reset that follows several allocations / deallocations without a gate in between
+                    # may belong to a LATER allocation (after the wire's holder was released): leave it for that one.  If no later
+                    # allocation can take it, the next gate finds a reset in its place and the history is rejected there.
+                    break
                 if not allow_resets:
                     return False, "reset emitted although allow_resets=False"
                 clean[rw] = True
@@ -236,6 +239,8 @@ def check_history(codes, zeroed, any_state, min_int, allow_resets, static, is_re
         else:
             if k >= len(out_ops):
                 return False, "gate missing from the output"
+            if is_reset(out_ops[k]):
+                return False, "reset applied to a wire that is currently loaned out"
             g = out_ops[k]
             k += 1
             ws = list(g.wires)
